@@ -173,6 +173,8 @@ def builtin1 (ext : List (String × Bool)) (f : String) (a : Val) : Val :=
       | none => .pair (.int 0) (.err (some ""))
   | "strconv.Itoa", .int i => .str (itoa i)
   | "CalculateCheckDigit", .str s => .int (calculateCheckDigit s)
+  | "asciiIndices", .str s => if allAscii s then .lst "" s.length else .bad   -- `for i, r := range s` on ASCII text
+  | "roundUp10", .int n => if 0 ≤ n then .int (roundUp10 n.toNat) else .bad
   | "parseStringField", .str s => .str (trimSpace s)
   | "strings.TrimSpace", .str s => .str (trimSpace s)
   | "strings.ToUpper", .str s => if allAscii s then .str (s.map toUpperAscii) else .bad
@@ -434,7 +436,7 @@ def relaxFlags : List String :=
    "AllowInvalidAmounts", "AllowZeroEntryAmount", "AllowSpecialCharacters"]
 
 def known1 : List String := ["isAlphanumeric", "isUpperASCII", "len", "utf8.RuneCountInString", "strconv.Atoi", "strconv.Itoa",
-  "CalculateCheckDigit", "parseStringField", "strings.TrimSpace", "strings.ToUpper", "iso3166.Valid", "iso4217.Lookup",
+  "CalculateCheckDigit", "asciiIndices", "roundUp10", "parseStringField", "strings.TrimSpace", "strings.ToUpper", "iso3166.Valid", "iso4217.Lookup",
   "errors.New", "fmt.Errorf", "opt.recv.CheckTransactionCode", "dict.changeCodeDict", "dict.returnCodeDict", "usabbrev.Valid"]
 def known2 : List String := ["stringField", "alphaField", "numericField", "fmt.Errorf", "index", "sliceFrom", "strings.EqualFold", "strings.Trim", "leastSignificantDigits"]
 def known3 : List String := ["slice", "fmt.Errorf"]
